@@ -1,5 +1,6 @@
 pub mod c01;
 pub mod c04;
 pub mod c05;
+pub mod c06;
 pub mod c17;
 pub mod c18;
